@@ -110,11 +110,15 @@ def check_C04(tier, seed):
         if tier == "thorough":
             c.mc_phase("GvtRound.tla", "GvtRound_t.cfg", "2 threads, 4 messages, timestamps 1..3, 2 consecutive rounds", workers=16, timeout=1800, heap="8g")
             c.mc_phase("GvtRound.tla", "GvtRound_3.cfg", "3 threads, 3 messages, 1 round", workers=16, timeout=1800, heap="8g")
-        c.run(_models(tier, seed, ["mixed", "fanout", "zerodelay", "ties"], 4, 24, "small", "medium"), 5 if tier == "quick" else 12, emphasis=em)
+        c.run(_models(tier, seed, ["mixed", "fanout", "zerodelay", "ties"], 3, 24, "small", "medium"), 4 if tier == "quick" else 12, emphasis=em)
         # rollback cascades that outlast a GVT round: one anti-message per hop walking through the LPs of two threads
         cem = lambda r: {"period": 0, "skew": r.choice([0, 0, 100, 300]), "ckpt": r.choice([1, 2, 0])}
-        c.run(_models(tier, seed + 9, ["chain"], 5, 40, "small", "medium"), 6 if tier == "quick" else 14, emphasis=cem)
-        c.run(_models(tier, seed + 50, ["mixed", "fanout", "zerodelay"], 3, 15), 6 if tier == "quick" else 14, emphasis=DIST_EM)
+        c.run(_models(tier, seed + 9, ["chain"], 4, 40, "small", "medium"), 5 if tier == "quick" else 14, emphasis=cem)
+        c.run(_models(tier, seed + 50, ["mixed", "fanout", "zerodelay"], 2, 15), 5 if tier == "quick" else 14, emphasis=DIST_EM)
+        # a token bouncing between two ranks with nothing else pending: the distributed GVT has to follow it (colours, counters, late peeks)
+        pem = lambda r: {"ranks": 2, "threads": r.choice([1, 1, 2]), "net": r.choice([0, 1]), "batch": 1, "period": 0, "skew": r.choice([0, 80, 160, 320]),
+                         "policy": r.choice([0, 2, 4]), "switch": r.choice(["1/1", "1/2", "1/3", "1/4"])}
+        c.run(_models(tier, seed + 70, ["pingpong"], 3, 20), 8 if tier == "quick" else 16, emphasis=pem)
         return c.finish()
     finally:
         c.close()
@@ -677,7 +681,7 @@ def check_C02(tier, seed):
         c.build(dist=True)
         em = lambda r: {"ranks": r.choice([2, 2, 3]), "threads": r.choice([1, 2, 2, 3]), "net": r.choice([0, 0, 1]),
                         "batch": r.choice([1, 1, 2, 8]), "period": r.choice([0, 0, 40])}
-        c.run(_models(tier, seed, ["mixed", "fanout", "ties", "zerodelay", "mixed", "nonmono"], 6, 36), 6 if tier == "quick" else 14, emphasis=em)
+        c.run(_models(tier, seed, ["mixed", "fanout", "ties", "zerodelay", "pingpong", "nonmono", "chain"], 7, 36), 6 if tier == "quick" else 14, emphasis=em)
         return c.finish(rule="generated models x (2-3 ranks) x (1-3 threads per rank) x checkpoint interval x batch x GVT period x scheduler seeds; the ranks are "
                              "renamed copies of the real core (distributed/mpi.c included) in one process over a fake MPI whose delivery order across sender threads, probe "
                              "misses and collective completion times are chosen by the scheduler; distinct by (model, configuration, schedule seed)",
